@@ -42,10 +42,10 @@ Section World.
   Proof.
     unfold run_node_sync. intros H nm cs o He.
     destruct (w_ctl w) as [m|]; [|inversion H; subst; destruct He].
-    destruct (sync_node po lab (can_patch w key) (api_same w key) (held_cidrs (w_ncache w)) m cached (find_node key (w_ncache w)) outs)
+    destruct (sync_node po lab (svc_list (w_svc w)) (can_patch w key) (api_same w key) (held_cidrs (w_ncache w)) m cached (find_node key (w_ncache w)) outs)
       as [[m' r] fx] eqn:Es.
     inversion H; subst. cbn [ob_fx] in He.
-    destruct (sync_node_patches _ _ _ _ _ _ _ _ _ _ _ _ Es _ _ _ He) as ((node & Hc & Hn & _) & Hre & Hun).
+    destruct (sync_node_patches _ _ _ _ _ _ _ _ _ _ _ _ _ Es _ _ _ He) as ((node & Hc & Hn & _) & Hre & Hun).
     split; [exact Hun|]. split; [exact Hre|]. exists node. split; assumption.
   Qed.
 
@@ -62,7 +62,7 @@ Section World.
   Proof.
     unfold handle_nevent. destruct e as [n|n|n]; cbn [snd ob_fx]; try reflexivity.
     match goal with |- context [w_ctl ?x] => destruct (w_ctl x) as [m|] end; [|reflexivity].
-    destruct (release_cidr m n) as [m' r]. destruct r; reflexivity.
+    destruct (release_cidr (svc_list (w_svc w)) m n) as [m' r]. destruct r; reflexivity.
   Qed.
 
   Lemma deliver_all_n_fx es : forall w acc, ob_fx (snd (deliver_all_n w es acc)) = [].
@@ -296,7 +296,7 @@ Section World.
     - cbn. destruct (w_ctl w); cbn; intros x H; exact H.
     - cbn. destruct (w_ctl w); cbn; intros x H; exact H.
     - cbn [set_caches w_ctl]. destruct (w_ctl w) as [m|]; [|intros x H; exact H].
-      destruct (release_cidr m n) as [m' r]. destruct r; cbn; intros x H; try exact H; destruct H.
+      destruct (release_cidr (svc_list (w_svc w)) m n) as [m' r]. destruct r; cbn; intros x H; try exact H; destruct H.
   Qed.
 
   Lemma handle_cevent_fetch w e : fetch_sub w (fst (handle_cevent w e)).
